@@ -101,6 +101,19 @@ func derivesFrom(v ssa.Value, pred func(ssa.Value) bool) bool {
 	return walk(v, 0)
 }
 
+// isTableSelector: a function of the engine package that hands out tables of a level as []*list.Element - a method of
+// levelManager, or a plain function that is given the level's list.
+func isTableSelector(p *Prog, f *ssa.Function) bool {
+	if f == nil || f.Signature.Results().Len() != 1 || !isElemSlice(f.Signature.Results().At(0).Type()) || len(f.Blocks) == 0 {
+		return false
+	}
+	if p.recvIs(f, "levelManager") {
+		return true
+	}
+	lm := p.FnOr("", "levelManager", "fetch")
+	return lm != nil && f.Pkg == lm.Pkg && f.Signature.Recv() == nil && f.Parent() == nil
+}
+
 func isElemSlice(t types.Type) bool {
 	sl, ok := t.Underlying().(*types.Slice)
 	if !ok {
@@ -165,6 +178,14 @@ func runCmpLevels(c *Ctx, r *RuleRun) {
 				for i, pr := range g.Params {
 					if bt, ok := pr.Type().Underlying().(*types.Basic); ok && bt.Kind() == types.Int && lvl == "" {
 						lvl = o.nf(cl.Call.Args[i])
+					}
+				}
+				if lvl == "" {
+					// the level's list itself is handed over: overlapping(lm.levels[n+1], start, end)
+					for _, a := range cl.Call.Args {
+						if idx, ok := levelListIndex(p, a, levels, 0); ok && lvl == "" {
+							lvl = o.nf(idx)
+						}
 					}
 				}
 				if lvl == "" {
@@ -700,7 +721,7 @@ func runCmpRange(c *Ctx, r *RuleRun) {
 	// 1. selectors
 	nSel := 0
 	for _, f := range p.Funcs {
-		if !p.recvIs(f, "levelManager") || f.Signature.Results().Len() != 1 || !isElemSlice(f.Signature.Results().At(0).Type()) {
+		if !isTableSelector(p, f) {
 			continue
 		}
 		var bounds []*ssa.Parameter
@@ -754,7 +775,7 @@ func runCmpRange(c *Ctx, r *RuleRun) {
 	}
 	// selectors answer "nothing" early only for an empty level, and a selector without bounds (L0) takes every table
 	for _, f := range p.Funcs {
-		if !p.recvIs(f, "levelManager") || f.Signature.Results().Len() != 1 || !isElemSlice(f.Signature.Results().At(0).Type()) {
+		if !isTableSelector(p, f) {
 			continue
 		}
 		fn := p.FnName(f)
@@ -1032,6 +1053,22 @@ func runCmpRange(c *Ctx, r *RuleRun) {
 
 // ---- GC.KEEP ----
 
+// gcWorker: the function that does the version garbage collection - discardStaleEntries itself, or the one helper it
+// hands the entries to (the function that records candidates in a map of entries).
+func gcWorker(p *Prog, f *ssa.Function) *ssa.Function {
+	if f == nil {
+		return nil
+	}
+	h := p.directHolder(f, func(ins ssa.Instruction) bool {
+		mu, ok := ins.(*ssa.MapUpdate)
+		return ok && p.isModuleNamed(mu.Value.Type()) == p.Named("types", "Entry")
+	})
+	if h != nil {
+		return h
+	}
+	return f
+}
+
 func runGcKeep(c *Ctx, r *RuleRun) {
 	p := c.P
 	f := p.FnOr("", "levelManager", "discardStaleEntries")
@@ -1040,6 +1077,8 @@ func runGcKeep(c *Ctx, r *RuleRun) {
 		r.Undecided("-", "levelManager.discardStaleEntries", "", "anchor not found")
 		return
 	}
+	entry := f
+	f = gcWorker(p, f)
 	fn := p.FnName(f)
 	var in *ssa.Parameter
 	for _, pr := range f.Params {
@@ -1321,6 +1360,25 @@ func runGcKeep(c *Ctx, r *RuleRun) {
 			r.Viol(fn, "result sorted with CompareKeys", p.Pos(instrPos(ret)), "the result can be returned without being sorted with CompareKeys after the candidates (taken from a map, in random order) were appended: the table built from it is not sorted and lookups miss keys", p.describePath(w)...)
 		}
 	})
+	// the worker is a helper: the entry function may hand its input back untouched, again only without a threshold
+	if entry != f {
+		eachInstr(entry, func(ins ssa.Instruction) {
+			ret, ok := ins.(*ssa.Return)
+			if !ok || len(ret.Results) != 1 || ret.Block().Comment == "recover" {
+				return
+			}
+			if pr, isParam := retOperand(ret, 0).(*ssa.Parameter); isParam && types.Identical(pr.Type(), in.Type()) {
+				zero := hasFact(ret, func(cm Cmp) bool {
+					if cm.Y == nil || cm.Op != "==" {
+						return false
+					}
+					k, isK := constInt(cm.Y)
+					return isK && k == 0
+				})
+				r.Check(zero, p.FnName(entry), "input passed through only without a threshold", p.Pos(instrPos(ret)), "guarded by threshold == 0", "the input is returned untouched on a condition other than `threshold == 0`")
+			}
+		})
+	}
 }
 
 // leftElsewhere: a block of the loop other than its header with a successor outside the loop (nil if none);
